@@ -21,8 +21,15 @@ def exhaustive_alphabet(big):
     a = ["insert %d %%v -" % k for k in range(5)] + ["delete %d" % k for k in range(5)] + \
         ["upsert 0 %v -", "upsert 2 %v -", "clear"]
     if big:
-        a += ["insert 1 %v f", "insert 3 %v sf", "ensert 4 %v -", "update 4 %v -"]
+        a += ["insert 1 %v f", "insert 3 %v sf", "ensert 4 %v -", "update 4 %v -", "cbsert 0 %v add -", "cbsert 3 %v keep -"]
     return a
+
+
+def cbsert_alphabet():
+    """callback-upsert focus: the colliding keys 0/2/4 created, replaced (fresh pair relinked at head / middle / tail of the
+    chain), kept, refused, with a refused callback allocation, interleaved with plain inserts and deletes"""
+    return ["insert 0 %v -", "insert 2 %v -", "insert 4 %v -", "cbsert 0 %v add -", "cbsert 2 %v add -", "cbsert 4 %v keep -",
+            "cbsert 1 %v fail -", "cbsert 2 %v add f", "delete 0", "delete 2"]
 
 
 def gen_config(rng, profile):
@@ -64,6 +71,8 @@ def gen_history(rng, n, profile):
             lines.append("walk %d" % rng.choice([0, 1, 2, 5, 1000]))
         elif x < p_del + 0.125:
             lines.append("clear")
+        elif x < p_del + 0.20:
+            lines.append("cbsert %d %d %s %s" % (k, v, rng.choice(["add", "add", "add", "keep", "keep", "fail"]), orc))
         else:
             op = rng.choice(["insert", "insert", "upsert", "upsert", "upsert", "update", "ensert"])
             lines.append("%s %d %d %s" % (op, k, v, orc))
@@ -95,6 +104,7 @@ def impl_property_check(block, cout):
     Returns None or a description of the first property violation seen on the real code."""
     d = {}
     hasher = None
+    last_capa = None
     for i, l in enumerate(block):
         if i >= len(cout):
             return "op %d %r: no output from the implementation" % (i, l)
@@ -104,7 +114,7 @@ def impl_property_check(block, cout):
         exp = None
         if w[0] == "new":
             d = {}
-            hasher = HASHERS.get(w[4])
+            hasher = None if w[-1] == "raw" else HASHERS.get(w[4])     # raw = the predefined style object: its own hasher
             exp = "ok"
         elif w[0] in MUT:
             k, v = int(w[1]), int(w[2])
@@ -122,6 +132,21 @@ def impl_property_check(block, cout):
                     d[k] = v
             else:
                 exp = "ok(%d,%d)" % (k, d.setdefault(k, v))
+        elif w[0] == "cbsert":
+            # callback upsert: the callback decides (add: create / replace by (w+v)%64; keep: create / keep; fail: refuse)
+            k, v, mode = int(w[1]), int(w[2]), w[3]
+            if enomem:
+                if "f" not in w[4]:
+                    return "op %d %r: ENOMEM without allocator refusal" % (i, l)
+            elif mode == "fail":
+                exp = "ECB"
+            elif k not in d:
+                exp = "ok(%d,%d)" % (k, v); d[k] = v
+            elif mode == "keep":
+                exp = "ok(%d,%d)" % (k, d[k])
+            else:
+                d[k] = (d[k] + v) % 64
+                exp = "ok(%d,%d)" % (k, d[k])
         elif w[0] == "delete":
             k = int(w[1])
             exp = "ok" if k in d else "ENOENT"
@@ -148,11 +173,18 @@ def impl_property_check(block, cout):
             continue
         if exp is not None and not o.startswith("r=" + exp + " "):
             return "op %d %r: returned %r, the ideal dictionary says r=%s" % (i, l, o.split(" e=")[0], exp)
-        if w[0] != "search":
+        if w[0] == "search":
+            m = re.search(r" n=(\d+) c=(\d+)$", o)
+            if not m or int(m.group(1)) != len(d):
+                return "op %d %r: hawk_htb_getsize says %s, the ideal dictionary holds %d pairs" % (i, l, m.group(1) if m else "?", len(d))
+            if last_capa is not None and int(m.group(2)) != last_capa:
+                return "op %d %r: hawk_htb_getcapa says %s, the bucket array has %d slots" % (i, l, m.group(2), last_capa)
+        else:
             pd = parse_dump(o)
             if pd is None:
                 return "op %d %r: unreadable dump %r" % (i, l, o)
             size, capa, thr, buckets = pd
+            last_capa = capa
             allp = [p for c in buckets.values() for p in c]
             if size != len(allp):
                 return "op %d %r: size field %d but %d pairs are linked" % (i, l, size, len(allp))
@@ -266,6 +298,9 @@ THEOREMS_HTB = ("Hawk.Htb.reachable_wf, reachable_refines, reachable_refines_exa
                 "reachable_placement, reachable_size_eq_sum (Props/C16Htb.lean) are statements about the model HawkModel.Htb")
 
 
+SHRINK_BUDGET = 45      # seconds of wall clock a shrink may use (each still-hanging candidate costs a watchdog period)
+
+
 def _norm(head, sub):
     return [head] + [x for x in sub if not x.startswith("new")]
 
@@ -273,13 +308,16 @@ def _norm(head, sub):
 def report_oracle(ctx, exe, drv, block, origin):
     """phase 1 hit: the implementation's own output breaks the property (or sanitizer/hang). Shrink, confirm, report."""
     head = block[0]
+    deadline = time.time() + SHRINK_BUDGET
 
-    def fails(sub):
+    def fails(sub, final=False):
+        if not final and time.time() > deadline:
+            return False                    # out of shrinking time: keep what we have
         sub = _norm(head, sub)
-        d, co, mo, st, ce = run_both(ctx, exe, drv, sub, wd=5)
+        d, co, mo, st, ce = run_both(ctx, exe, drv, sub, wd=4)
         return st != "ok" or len(co) < len(sub) or impl_property_check(sub, co) is not None
     small = _norm(head, C.ddmin(block, fails, max_tests=200))
-    if not fails(small):
+    if not fails(small, final=True):
         small = block                      # the shrunk case must still fail; otherwise keep the original
     d, co, mo, st, ce = run_both(ctx, exe, drv, small, wd=10)
     viol = impl_property_check(small, co)
@@ -297,9 +335,12 @@ def report_oracle(ctx, exe, drv, block, origin):
 def report_corr(ctx, exe, drv, block, origin, evals):
     """phase 2 only: the oracle was clean on every generated case but model and implementation differ"""
     head = block[0]
+    deadline = time.time() + SHRINK_BUDGET
 
     def fails(sub):
-        d, co, mo, st, ce = run_both(ctx, exe, drv, _norm(head, sub), wd=5)
+        if time.time() > deadline:
+            return False
+        d, co, mo, st, ce = run_both(ctx, exe, drv, _norm(head, sub), wd=4)
         return d is not None
     small = _norm(head, C.ddmin(block, fails, max_tests=200))
     d, co, mo, st, ce = run_both(ctx, exe, drv, small, wd=5)
@@ -316,21 +357,28 @@ def report_corr(ctx, exe, drv, block, origin, evals):
 
 
 def run_jobs(ctx, jobs, acc, origin):
-    """run jobs in a process pool, fold results into acc; the first failing block is shrunk and reported"""
+    """run jobs in a process pool, wave by wave, fold results into acc; stop submitting as soon as a wave contains a
+    property-oracle hit (a violating tree must not cost the whole campaign: every hanging job costs its watchdog time)"""
     if not jobs:
         return
-    with ProcessPoolExecutor(max_workers=min(14, os.cpu_count() or 2)) as ex:
-        for out in ex.map(_work, jobs):
-            acc["evals"] += out["n"]
-            for k, v in out["stats"].items():
-                acc["stats"][k] = acc["stats"].get(k, 0) + v
-            for k, v in out["dist"].items():
-                acc["dist"][k] = acc["dist"].get(k, 0) + v
-            acc["nontriv"] |= out["nontriv"]
-            if out["bad_oracle"] is not None and acc["bad_oracle"] is None:
-                acc["bad_oracle"] = (out["bad_oracle"], origin)
-            if out["bad_corr"] is not None and acc["bad_corr"] is None:
-                acc["bad_corr"] = (out["bad_corr"], origin)
+    workers = min(14, os.cpu_count() or 2)
+    wd = 6 if ctx.tier == "quick" else 20
+    with ProcessPoolExecutor(max_workers=workers) as ex:
+        for w in range(0, len(jobs), 2 * workers):
+            wave = [dict(j, wd=j.get("wd", wd)) for j in jobs[w:w + 2 * workers]]
+            for out in ex.map(_work, wave):
+                acc["evals"] += out["n"]
+                for k, v in out["stats"].items():
+                    acc["stats"][k] = acc["stats"].get(k, 0) + v
+                for k, v in out["dist"].items():
+                    acc["dist"][k] = acc["dist"].get(k, 0) + v
+                acc["nontriv"] |= out["nontriv"]
+                if out["bad_oracle"] is not None and acc["bad_oracle"] is None:
+                    acc["bad_oracle"] = (out["bad_oracle"], origin)
+                if out["bad_corr"] is not None and acc["bad_corr"] is None:
+                    acc["bad_corr"] = (out["bad_corr"], origin)
+            if acc["bad_oracle"] is not None:
+                break
 
 
 def htb_stage(ctx, exe, res):
@@ -355,9 +403,11 @@ def htb_stage(ctx, exe, res):
 
     # 2. exhaustive
     if ctx.tier == "quick":
-        plans = [(exhaustive_alphabet(True), L) for L in (1, 2, 3, 4)] + [(exhaustive_alphabet(False), 5)]
+        plans = [(exhaustive_alphabet(True), L) for L in (1, 2, 3, 4)] + [(exhaustive_alphabet(False), 5)] + \
+                [(cbsert_alphabet(), L) for L in (3, 4)]
     else:
-        plans = [(exhaustive_alphabet(True), L) for L in (1, 2, 3, 4, 5)] + [(exhaustive_alphabet(False), 6)]
+        plans = [(exhaustive_alphabet(True), L) for L in (1, 2, 3, 4)] + [(exhaustive_alphabet(True)[:17], 5)] + \
+                [(exhaustive_alphabet(False), 6)] + [(cbsert_alphabet(), L) for L in (3, 4, 5)]
     nexh = 0
     t = time.time()
     jobs = []
@@ -430,12 +480,15 @@ def stage(ctx, libdir):
     # take private copies of what this stage runs right away: the shared build cache may be pruned by a
     # concurrent check of another working tree while we are still running
     exe = C.cc_harness(ctx, HARNESS, link_lib=libdir)
+    exe_mv = C.cc_harness(ctx, MV_HARNESS, link_lib=libdir)
     hawk = os.path.join(ctx.scratch, "hawk-c16htb")
     shutil.copy2(os.path.join(libdir, "hawk"), hawk)
     res["proofs"].append(prove_multi_ns(ctx, "HawkModel.Props.C16Htb", ctx.tier == "thorough"))
     htb_stage(ctx, exe, res)
     forin_stage(ctx, hawk, res)
-    res["rule"] = ("htb: corpus + every op sequence of length <=4 (quick) / <=5 (thorough) over a 17-symbol alphabet on keys 0..4 "
+    mapval_stage(ctx, exe_mv, res)
+    res["rule"] = ("htb: corpus + every op sequence of length <=4 over a 19-symbol alphabet (insert/upsert/update/ensert/cbsert/delete/clear), of length 5 over its "
+                   "first 17 symbols (thorough), of length <=4 (quick) / <=5 (thorough) over a 10-symbol callback-upsert alphabet, on keys 0..4 "
                    "(capa 1, factor 75, hasher id: rehash at the 2nd/3rd/5th new key, allocator refusal symbols included) and of length 6 "
                    "over the 13-symbol core alphabet (thorough), all four styles in rotation + seeded random churn histories of 10..2000 ops "
                    "over 8..64 keys (growth, churn, delete-heavy tail; capa 1..16, factor 0..100, hashers id/mul/const/real default, sizers "
@@ -446,10 +499,13 @@ def stage(ctx, libdir):
                    "keys, add keys, `delete m`, `m=@nil`, `m=hawk::array()`, nested loops on the same container/variable, break/continue/"
                    "return/exit, user-function calls; maps and hawk::array() arrays) run with the sanitized hawk CLI; printed visit sequence "
                    "and final containers compared with the Lean interpreter and with a Python reading of the English property; "
-                   "distinct_nontrivial(for-in) = distinct programs in which a loop body changes the container it iterates")
+                   "distinct_nontrivial(for-in) = distinct programs in which a loop body changes the container it iterates. "
+                   "map/array value API: seeded histories of set/get/del/clear/iterate through hawk_rtx_setmapvalfld/getmapvalfld/"
+                   "getfirstmapvalitr/getnextmapvalitr and setarrvalfld/getarrvalfld against python dictionaries (order = key strings bytewise) and "
+                   "HawkModel.ForIn.Val")
     res["trusted"] = ["run_forin modelled by hand in HawkModel/ForIn.lean (allocation failures inside run_forin and reference counting not modelled; "
                       "language level covers the statement language of ForIn.Stmt with numeric keys)",
-                      "htb.c modelled by hand in HawkModel/Htb.lean (hawk_htb_cbsert and custom copier callbacks not modelled; key-copier kind "
+                      "htb.c modelled by hand in HawkModel/Htb.lean (custom copier callbacks not modelled — outside the four predefined styles; hawk_htb_cbsert modelled for callbacks that refuse, keep, or build a fresh pair; key-copier kind "
                       "has no structural effect and is not a model parameter; payloads are small integers)"]
     res["assumptions"] = ["allocator modelled as an oracle answering each request", "capa >= 1 and factor <= 100 at hawk_htb_open (asserted by the C)"]
     return res
@@ -458,6 +514,19 @@ def stage(ctx, libdir):
 def replay(ctx, libdir, path):
     """./check C16 --replay FILE for files written by this stage (first line after the header says the area)"""
     txt = open(path).read()
+    if "# area=mapval" in txt:
+        lines = []
+        for l in txt.split("\n"):
+            if l.startswith("# impl:"):
+                break
+            if l.startswith("mv "):
+                lines.append(l.strip())
+        co, mo, st, ce = mv_run(C.cc_harness(ctx, MV_HARNESS, link_lib=libdir), C.driver_exe(ctx), lines)
+        for i, l in enumerate(lines):
+            print("%-18s impl: %-50s model: %s" % (l, co[i] if i < len(co) else "<none>", mo[i] if i < len(mo) else "<none>"))
+        v = mv_oracle(lines, co)
+        print("status:", st, "| ordered-dictionary check:", v or "ok")
+        return 1 if (st != "ok" or v or co != mo) else 0
     if "# area=forin" in txt:
         m = re.search(r"^prog-tuple: (.*)$", txt, re.M)
         prog = eval(m.group(1), {"__builtins__": {}})
@@ -495,7 +564,7 @@ def replay_htb(ctx, libdir, lines):
 # ("newarr",m) ("emit",x) ("brk",) ("cont",) ("exit",) ("ret",) ("skip",) ("ifeq",x,k,S) ("seq",A,B)
 # ("forin",x,m,S) ("call",S)
 KEYPOOL = [0, 1, 2, 3, 4, 5, 6, 7, 8, 9, 10, 11, 12, 19, 20, 21, 100]
-MUTATORS = ("set", "setcur", "del", "delcur", "reset", "renew", "newarr")
+MUTATORS = ("set", "setcur", "del", "delcur", "reset", "renew", "newarr", "scalar")
 
 
 def seq_of(stmts):
@@ -530,8 +599,10 @@ def gen_body(rng, depth, bound, loops, in_loop, in_call):
             out.append(("reset", m))
         elif r < 0.69:
             out.append(("renew", m))
-        elif r < 0.71:
+        elif r < 0.705:
             out.append(("newarr", m))
+        elif r < 0.71:
+            out.append(("scalar", m))
         elif x is not None and r < 0.80:
             ctl = []
             if in_loop:
@@ -629,6 +700,7 @@ def render(prog):
         if t == "reset": return "delete M%d;" % s[1]
         if t == "renew": return "M%d = @nil;" % s[1]
         if t == "newarr": return "M%d = hawk::array();" % s[1]
+        if t == "scalar": return "M%d = 5;" % s[1]
         if t == "emit": return 'printf "<%%s>", K%d;' % s[1]
         if t == "brk": return "break;"
         if t == "cont": return "continue;"
@@ -657,7 +729,7 @@ class Budget(Exception):
 def py_ideal(prog, budget=None):
     """the English property as a reference interpreter: a loop visits list(keys at entry), in the container's
     order (maps: keys as strings, bytewise; arrays: ascending index)"""
-    V = [None, None, None]          # None | ("map", dict) | ("arr", dict)
+    V = [None, None, None]          # None | ("map", dict) | ("arr", dict) | ("scalar",)
     K = [None, None, None]
     out = []
 
@@ -676,16 +748,22 @@ def py_ideal(prog, budget=None):
         if t in ("set", "setcur"):
             m = s[1]
             k = s[2] if t == "set" else K[s[2]] + s[3]
-            if V[m] is None:
+            if V[m] is None or V[m][0] == "scalar":
                 V[m] = ("map", {})
             V[m][1][k] = s[3] if t == "set" else 1
         elif t in ("del", "delcur"):
             m = s[1]
             k = s[2] if t == "del" else K[s[2]]
+            if V[m] is not None and V[m][0] == "scalar":
+                return "err"                     # 'M' not deletable: the program is aborted
             if V[m] is not None:
                 V[m][1].pop(k, None)
         elif t == "reset":
+            if V[s[1]] is not None and V[s[1]][0] == "scalar":
+                return "err"
             V[s[1]] = ("map", {}) if V[s[1]] is None else (V[s[1]][0], {})
+        elif t == "scalar":
+            V[s[1]] = ("scalar",)
         elif t == "renew":
             V[s[1]] = None
         elif t == "newarr":
@@ -701,6 +779,8 @@ def py_ideal(prog, budget=None):
             e = ex(s[1])
             return e if e else ex(s[2])
         elif t == "forin":
+            if V[s[2]] is not None and V[s[2]][0] == "scalar":
+                return "err"                     # wrong operand in right-hand side of 'in'
             for k in keys(V[s[2]]):
                 K[s[1]] = k
                 e = ex(s[3])
@@ -712,8 +792,16 @@ def py_ideal(prog, budget=None):
             e = ex(s[1])
             return None if e == "func" else e
         return None
-    ex(prog)
-    return "".join("<%d>" % k for k in out) + "|" + "".join("".join("(%d=%d)" % (k, v[1][k]) for k in keys(v)) + "|" for v in V)
+    e = ex(prog)
+    res = "".join("<%d>" % k for k in out)
+    if e == "err":
+        return res + "!ERR"                      # END is not run after a run-time error
+    res += "|"
+    for v in V:                                  # the END block; a scalar aborts it
+        if v is not None and v[0] == "scalar":
+            return res + "!ERR"
+        res += "".join("(%d=%d)" % (k, v[1][k]) for k in keys(v)) + "|"
+    return res
 
 
 def well_scoped(s, bound=frozenset(), in_loop=False, in_call=False):
@@ -746,7 +834,7 @@ def features(s, loops=(), acc=None):
     t = s[0]
     if t in MUTATORS and s[1] in loops:
         acc.add({"delcur": "delete_current_key", "del": "delete_other_key", "set": "add_key", "setcur": "add_key",
-                 "reset": "delete_whole_map", "renew": "reassign_nil", "newarr": "reassign_array"}[t])
+                 "reset": "delete_whole_map", "renew": "reassign_nil", "newarr": "reassign_array", "scalar": "reassign_scalar"}[t])
     if t in ("brk", "cont", "exit", "ret"): acc.add("ctl_" + t)
     if t == "ifeq": features(s[3], loops, acc)
     if t == "seq": features(s[1], loops, acc); features(s[2], loops, acc)
@@ -755,6 +843,7 @@ def features(s, loops=(), acc=None):
         features(s[3], loops + (s[2],), acc)
     if t == "call": acc.add("call"); features(s[1], loops, acc)
     if t == "newarr": acc.add("array")
+    if t == "scalar": acc.add("scalar_value")
     return acc
 
 
@@ -782,12 +871,20 @@ def size_of(s):
     return 1 + sum(size_of(a) for a in s[1:] if isinstance(a, tuple))
 
 
-def run_hawk(hawk, src):
-    rc, out, err = C.sh(["timeout", "-s", "KILL", "20", hawk, src], timeout=30, env=C.ASAN_ENV)
-    st = C.classify_rc(rc, err.decode(errors="replace"))
+def run_hawk(hawk, src, limit=5):
+    """one program through the sanitized CLI; `limit` seconds (the clean tree answers in milliseconds), SIGKILL on expiry"""
+    # stdout is capped: a loop that never ends must not fill the memory while it waits for its time limit
+    rc, out, err = C.sh(["bash", "-c", 'set -o pipefail; timeout -s KILL "$1" "$2" "$3" | head -c 4000000', "_", str(limit), hawk, src],
+                        timeout=limit + 10, env=C.ASAN_ENV)
+    errs = err.decode(errors="replace")
+    st = C.classify_rc(rc, errs)
     if rc in (-9, 137):
         st = "HANG"
-    return st, out.decode(errors="replace").rstrip("\n"), err.decode(errors="replace")
+    outs = out.decode(errors="replace").rstrip("\n")
+    if rc == 255 and st == "EXIT255" and re.search(r"ERROR: CODE (103|98) ", errs):
+        # hawk's own run-time error (for-in over a scalar / delete of a scalar): the program was aborted in an orderly way
+        st, outs = "ok", outs + "!ERR"
+    return st, outs, errs
 
 
 def model_out(drv, progs):
@@ -823,72 +920,235 @@ def forin_stage(ctx, hawk, res):
     t = time.time()
     mouts = model_out(drv, progs)
     from concurrent.futures import ThreadPoolExecutor
-    with ThreadPoolExecutor(max_workers=min(14, os.cpu_count() or 2)) as ex:
-        houts = list(ex.map(lambda p: run_hawk(hawk, render(p)), progs))
+    workers = min(14, os.cpu_count() or 2)
+    limit = 5 if ctx.tier == "quick" else 10        # per program; a hang is confirmed once with 2x this before it counts
     feat = {}
     nontriv = set()
     bad_oracle = bad_corr = None
-    for p, mo, (st, ho, he) in zip(progs, mouts, houts):
-        fs = features(p)
-        for f in fs:
-            feat[f] = feat.get(f, 0) + 1
-        if mutates_iterated(p):
-            nontriv.add(p)
-        # (1) property oracle: hawk's own output against the English property read directly (python), sanitizer, hang
-        if bad_oracle is None and (st != "ok" or py_ideal(p) != ho):
-            bad_oracle = p
-        # (2) correspondence with the Lean interpreter
-        if bad_corr is None and ho != mo:
-            bad_corr = p
-    ctx.log("for-in: %d programs in %.1fs; %s" % (len(progs), time.time() - t, feat))
+    ran = 0
+    hangs = 0
+    with ThreadPoolExecutor(max_workers=workers) as ex:
+        # waves: stop launching programs as soon as one wave holds a confirmed property-oracle hit — on a tree where
+        # for-in does not terminate every program would otherwise cost its full time limit
+        for w in range(0, len(progs), 2 * workers):
+            wave = progs[w:w + 2 * workers]
+            houts = list(ex.map(lambda p: run_hawk(hawk, render(p), limit), wave))
+            for p, mo, (st, ho, he) in zip(wave, mouts[w:w + len(wave)], houts):
+                ran += 1
+                for f in features(p):
+                    feat[f] = feat.get(f, 0) + 1
+                if mutates_iterated(p):
+                    nontriv.add(p)
+                if st == "HANG" and bad_oracle is None:
+                    st, ho, he = run_hawk(hawk, render(p), 2 * limit)      # confirm on a quieter machine
+                    hangs += st == "HANG"
+                # (1) property oracle: hawk's own output against the English property read directly (python), sanitizer, hang
+                if bad_oracle is None and (st != "ok" or py_ideal(p) != ho):
+                    bad_oracle = p
+                # (2) correspondence with the Lean interpreter
+                if bad_corr is None and st == "ok" and ho != mo:
+                    bad_corr = p
+            if bad_oracle is not None:
+                break
+    ctx.log("for-in: %d of %d programs in %.1fs%s; %s" % (ran, len(progs), time.time() - t,
+                                                          " (stopped at the first property-oracle hit)" if bad_oracle is not None else "", feat))
+    deadline = time.time() + (20 if ctx.tier == "quick" else 90)
 
     def shrink(p, fails):
+        """greedy subterm reduction, candidates tried in parallel, bounded by wall clock"""
         cur = p
-        improved = True
-        tests = 0
-        while improved and tests < 400:
-            improved = False
-            for cand in sorted(subterm_reductions(cur), key=size_of):
-                if size_of(cand) >= size_of(cur) or not well_scoped(cand):
-                    continue
-                tests += 1
-                if fails(cand):
-                    cur = cand; improved = True
+        with ThreadPoolExecutor(max_workers=workers) as ex:
+            while time.time() < deadline:
+                cands = [c for c in sorted(set(subterm_reductions(cur)), key=size_of) if size_of(c) < size_of(cur) and well_scoped(c)]
+                hit = None
+                for i in range(0, len(cands), workers):
+                    if time.time() > deadline:
+                        break
+                    res_ = list(ex.map(fails, cands[i:i + workers]))
+                    for c, r in zip(cands[i:i + workers], res_):
+                        if r:
+                            hit = c
+                            break
+                    if hit is not None:
+                        break
+                if hit is None:
                     break
-                if tests >= 400:
-                    break
-        return cur if fails(cur) else p     # the shrunk case must still fail
+                cur = hit
+        return cur
 
-    def replay_text(cur):
-        st, ho, he = run_hawk(hawk, render(cur))
+    def replay_text(cur, lim):
+        st, ho, he = run_hawk(hawk, render(cur), lim)
         mo = model_out(drv, [cur])[0]
         return st, ho, mo, py_ideal(cur), ("# area=forin\n# run: <libdir>/hawk '<program below>'   and   echo 'prog ...' | hawkdrv htb\n"
                 "prog-tuple: %r\nprog %s\n# hawk source:\n%s# hawk (%s): %s\n# model:     %s\n# ideal:     %s\n%s" % (
-                    cur, " ".join(tokens(cur)), render(cur), st, ho, mo, py_ideal(cur), he[-1500:]))
+                    cur, " ".join(tokens(cur)), render(cur), st, ho[:2000], mo, py_ideal(cur), he[-1500:]))
     if bad_oracle is not None:
-        def fails_prop(p):
-            st, ho, he = run_hawk(hawk, render(p))
+        def fails_prop(p, lim=max(2, limit // 2)):
+            st, ho, he = run_hawk(hawk, render(p), lim)
             return st != "ok" or ho != py_ideal(p)
         cur = shrink(bad_oracle, fails_prop)
-        st, ho, mo, ideal, txt = replay_text(cur)
+        ctx.log("for-in: shrunk to size %d (from %d) by %.1fs" % (size_of(cur), size_of(bad_oracle), time.time() - t))
+        st, ho, mo, ideal, txt = replay_text(cur, 2 * limit)
+        if st == "ok" and ho == ideal and cur is not bad_oracle:
+            # the shrunk case must still fail (with a generous limit); else keep the original
+            st, ho, mo, ideal, txt = replay_text(bad_oracle, 2 * limit)
         if st != "ok":
-            ctx.problem("impl", "hawk %s on a generated for-in program" % st, txt, found_input=True)
+            ctx.problem("impl", "hawk %s on a generated for-in program (entry-time key sequence would give %r)" % (st, ideal[:160]), txt, found_input=True)
         else:
             ctx.problem("impl", "for-in does not visit exactly the keys present at loop entry: hawk printed %r, the entry-time key "
                         "sequence gives %r" % (ho[:200], ideal[:200]), txt, found_input=True)
     elif bad_corr is not None:
         def fails_corr(p):
-            st, ho, he = run_hawk(hawk, render(p))
-            return ho != model_out(drv, [p])[0]
+            st, ho, he = run_hawk(hawk, render(p), limit)
+            return st == "ok" and ho != model_out(drv, [p])[0]
         cur = shrink(bad_corr, fails_corr)
-        st, ho, mo, ideal, txt = replay_text(cur)
+        if not fails_corr(cur):
+            cur = bad_corr
+        st, ho, mo, ideal, txt = replay_text(cur, 2 * limit)
         ctx.problem("corr", "correspondence broken: hawk agrees with the entry-time reading of for-in on all %d generated programs but the Lean "
                     "interpreter HawkModel.ForIn.exec prints something else: hawk %r model %r (Hawk.ForIn.forin_stmt_visits, runForIn_eq_spec, "
                     "exec_balanced are statements about that model)" % (len(progs), ho[:200], mo[:200]), txt, found_input=False)
-    res["evaluations"] += len(progs)
+    res["evaluations"] += ran
     res["distinct_nontrivial"] += len(nontriv)
     res["samples"] += [render(progs[len(FIXED_PROGS)]).replace("\n", " ")[:400]] if len(progs) > len(FIXED_PROGS) else []
-    res["dist"].update({"forin_programs": len(progs), "forin_features": feat, "forin_mutating_iterated_container": len(nontriv)})
+    res["dist"].update({"forin_programs": ran, "forin_hangs_confirmed": hangs, "forin_features": feat, "forin_mutating_iterated_container": len(nontriv)})
+
+
+# ==============================================================================================
+# the language-level containers through the embedding API of val.c (harness/mapval_h.c) vs HawkModel.ForIn.Val
+# ==============================================================================================
+MV_HARNESS = os.path.join(C.VERIF, "harness", "mapval_h.c")
+MV_KEYS = [0, 1, 2, 3, 4, 5, 9, 10, 11, 12, 19, 20, 21, 99, 100, 101, 1000]
+
+
+def gen_mv(rng, n):
+    lines = ["mv new", "mv anew"]
+    for _ in range(n):
+        x = rng.random()
+        k = rng.choice(MV_KEYS)
+        if x < 0.35:
+            lines.append("mv set %d %d" % (k, rng.randrange(100)))
+        elif x < 0.50:
+            lines.append("mv del %d" % k)
+        elif x < 0.60:
+            lines.append("mv get %d" % k)
+        elif x < 0.70:
+            lines.append("mv iter")
+        elif x < 0.72:
+            lines.append("mv clear")
+        elif x < 0.86:
+            lines.append("mv aset %d %d" % (rng.choice([0, 1, 2, 3, 5, 8, 13, 40, 63, 64, 65, 130]), rng.randrange(100)))
+        elif x < 0.93:
+            lines.append("mv aget %d" % rng.choice([0, 1, 2, 3, 5, 8, 13, 40, 63, 64, 65, 130, 500]))
+        else:
+            lines.append("mv aiter")
+    lines += ["mv iter", "mv aiter"]
+    return lines
+
+
+def mv_oracle(block, cout):
+    """python dictionaries against the implementation's own answers; iteration must give every pair exactly once, maps in
+    the order of the key strings (bytewise, shorter prefix first), arrays by ascending index"""
+    d, a = {}, {}
+    for i, l in enumerate(block):
+        if i >= len(cout) or cout[i] == "HANG":
+            return "op %d %r: no answer from the implementation" % (i, l)
+        w, o = l.split()[1:], cout[i]
+        exp = None
+        if w[0] == "new": d = {}; exp = "ok"
+        elif w[0] == "anew": a = {}; exp = "ok"
+        elif w[0] == "set": d[int(w[1])] = int(w[2]); exp = "ok n=%d" % len(d)
+        elif w[0] == "get": exp = str(d[int(w[1])]) if int(w[1]) in d else "-"
+        elif w[0] == "del":
+            exp = ("ok" if int(w[1]) in d else "ENOENT"); d.pop(int(w[1]), None); exp += " n=%d" % len(d)
+        elif w[0] == "clear": d = {}; exp = "ok n=0"
+        elif w[0] == "iter":
+            ks = sorted(d, key=lambda k: str(k).encode())
+            exp = ",".join("%d=%d" % (k, d[k]) for k in ks) + " n=%d" % len(d)
+        elif w[0] == "aset": a[int(w[1])] = int(w[2]); exp = "ok"
+        elif w[0] == "aget": exp = str(a[int(w[1])]) if int(w[1]) in a else "-"
+        elif w[0] == "aiter": exp = ",".join("%d=%d" % (k, a[k]) for k in sorted(a)) + " n=%d" % len(a)
+        if exp is not None and o != exp:
+            return "op %d %r: the implementation answered %r, an ideal ordered dictionary answers %r" % (i, l, o[:200], exp[:200])
+    return None
+
+
+def mv_run(exe, drv, lines, wd=6):
+    budget = 60 + len(lines) // 100
+    rc, cout, cerr = C.run_harness(exe, [str(wd)], lines, timeout=budget)
+    rc2, out, err = C.sh([drv, "htb"], input_=("\n".join(lines) + "\n").encode(), timeout=budget)
+    if rc2 != 0:
+        raise RuntimeError("lean driver htb (mv) rc=%s: %s" % (rc2, err.decode(errors="replace")[-2000:]))
+    st = C.classify_rc(rc, cerr)
+    if cout and cout[-1] == "HANG":
+        st = "HANG"
+    return cout, out.decode(errors="replace").split("\n")[:-1], st, cerr
+
+
+def mapval_stage(ctx, exe, res):
+    drv = C.driver_exe(ctx)
+    rng = ctx.rng
+    n = 240 if ctx.tier == "quick" else 4000
+    blocks = [gen_mv(rng, rng.randrange(5, 80)) for _ in range(n)]
+    from concurrent.futures import ThreadPoolExecutor
+    per = max(1, n // 12)
+    batches = [blocks[i:i + per] for i in range(0, n, per)]
+    t = time.time()
+    with ThreadPoolExecutor(max_workers=min(12, os.cpu_count() or 2)) as ex:
+        outs = list(ex.map(lambda bs: mv_run(exe, drv, [l for b in bs for l in b]), batches))
+    bad_oracle = bad_corr = None
+    for bs, (cout, mout, st, cerr) in zip(batches, outs):
+        pos = 0
+        for b in bs:
+            co, mo = cout[pos:pos + len(b)], mout[pos:pos + len(b)]
+            if bad_oracle is None and (len(co) < len(b) or mv_oracle(b, co) is not None):
+                bad_oracle = b
+            if bad_corr is None and co != mo:
+                bad_corr = b
+            pos += len(b)
+        if bad_oracle is None and st != "ok":
+            bad_oracle = bs[-1]
+    ctx.log("map/array value API: %d histories, %d ops in %.1fs" % (n, sum(len(b) for b in blocks), time.time() - t))
+    deadline = time.time() + SHRINK_BUDGET
+    head = ["mv new", "mv anew"]
+
+    def norm(sub):
+        return head + [x for x in sub if x not in head]
+    if bad_oracle is not None:
+        def fails(sub):
+            if time.time() > deadline:
+                return False
+            sub = norm(sub)
+            co, mo, st, ce = mv_run(exe, drv, sub, wd=4)
+            return st != "ok" or len(co) < len(sub) or mv_oracle(sub, co) is not None
+        small = norm(C.ddmin(bad_oracle, fails, max_tests=150))
+        co, mo, st, ce = mv_run(exe, drv, small, wd=6)
+        if st == "ok" and mv_oracle(small, co) is None:
+            small = bad_oracle
+            co, mo, st, ce = mv_run(exe, drv, small, wd=6)
+        ctx.problem("impl", "the map/array value API of val.c departs from an ideal ordered dictionary on a %d-op history (%s): %s" % (
+            len(small), st, mv_oracle(small, co) or "sanitizer / signal"),
+            "# area=mapval\n# feed to harness/mapval_h.c and to `hawkdrv htb`\n" + "\n".join(small) + "\n# impl:\n" + "\n".join(co) +
+            "\n# model:\n" + "\n".join(mo) + "\n" + ce[-1500:], found_input=True)
+    elif bad_corr is not None:
+        def fails(sub):
+            if time.time() > deadline:
+                return False
+            co, mo, st, ce = mv_run(exe, drv, norm(sub), wd=4)
+            return co != mo
+        small = norm(C.ddmin(bad_corr, fails, max_tests=150))
+        co, mo, st, ce = mv_run(exe, drv, small, wd=6)
+        if co == mo:
+            small = bad_corr
+            co, mo, st, ce = mv_run(exe, drv, small, wd=6)
+        k = C.diff_streams(co, mo) or 0
+        ctx.problem("corr", "correspondence broken: val.c's map/array value API still answers like an ideal ordered dictionary on all %d histories "
+                    "but HawkModel.ForIn.Val (the container model of the for-in theorems) answers differently: op %r: impl %r vs model %r" % (
+                        n, small[min(k, len(small) - 1)], co[k] if k < len(co) else "<none>", mo[k] if k < len(mo) else "<none>"),
+                    "# area=mapval\n" + "\n".join(small) + "\n# impl:\n" + "\n".join(co) + "\n# model:\n" + "\n".join(mo) + "\n", found_input=False)
+    res["evaluations"] += sum(len(b) for b in blocks)
+    res["distinct_nontrivial"] += len({tuple(b) for b in blocks if sum(1 for l in b if l.startswith("mv del") or l.startswith("mv set")) >= 4})
+    res["dist"].update({"mapval_histories": n})
 
 
 def _loop(x, m, *body):
@@ -913,4 +1173,9 @@ FIXED_PROGS = [
     seq_of([("newarr", 1)] + _fill(1, [0, 2, 100]) + [_loop(2, 1, ("reset", 1))]),
     seq_of(_fill(2, [1, 2, 3, 4]) + [("call", _loop(0, 2, ("ifeq", 0, 3, ("ret",)), ("delcur", 2, 0))), ("set", 2, 7, 7)]),
     seq_of(_fill(2, [1, 2, 3, 4]) + [_loop(0, 2, ("ifeq", 0, 2, ("cont",)), ("del", 2, 4), ("ifeq", 0, 3, ("exit",)))]),
+    # error paths: for-in over a scalar inside a running map loop / array loop; a scalar turned into a map by a store
+    seq_of(_fill(0, [1, 2]) + [("scalar", 1), _loop(0, 0, _loop(1, 1))]),
+    seq_of([("newarr", 0)] + _fill(0, [1, 2]) + [_loop(0, 0, ("scalar", 0), ("ifeq", 0, 2, ("delcur", 0, 0)))]),
+    seq_of(_fill(0, [1, 2]) + [("scalar", 1), _loop(0, 0, ("setcur", 1, 0, 1)), _loop(2, 1)]),
+    seq_of(_fill(0, [3]) + [("scalar", 2), _loop(0, 0)]),
 ]
